@@ -419,6 +419,11 @@ func byteViews(r *core.Run) {
 			}
 		}
 	}
+	// byte views over sources that hand out their LAST bits together with EOF (a bare
+	// IOBitReadSeeker positioned inside a byte, a multi reader ending in one, a window
+	// declared longer than such a source): the zero padded last byte must still come
+	eofSources(r, all, src)
+
 	// IOBitWriter: every sequence of WriteBits(n) of length <= 4 then Flush
 	ws := []int64{0, 1, 3, 8, 9, 17}
 	depth := core.Pick(r, 4, 5)
@@ -488,3 +493,77 @@ func byteOpsView(l int64, withEnd bool) []BOp {
 }
 
 var _ = errors.Is
+
+type eofSrc struct {
+	kind string
+	mk   func() bitio.ReaderAtSeeker
+	ref  core.Bits
+}
+
+func eofSources(r *core.Run, all core.Bits, src []byte) {
+	idx := int64(9000)
+	for nbytes := 1; nbytes <= len(src); nbytes++ {
+		total := int64(nbytes) * 8
+		bare := func() *bitio.IOBitReadSeeker {
+			return bitio.NewIOBitReadSeeker(bytes.NewReader(append([]byte{}, src[:nbytes]...)))
+		}
+		var srcs []eofSrc
+		for _, s0 := range []int64{0, 1, 3, 7} {
+			s0 := s0
+			srcs = append(srcs, eofSrc{fmt.Sprintf("bare@%d", s0), func() bitio.ReaderAtSeeker {
+				b := bare()
+				if _, err := b.SeekBits(s0, io.SeekStart); err != nil {
+					panic(err)
+				}
+				return b
+			}, all.Slice(s0, total)})
+		}
+		srcs = append(srcs, eofSrc{"multi(3 bits, bare)", func() bitio.ReaderAtSeeker {
+			m, err := bitio.NewMultiReader(bitio.NewBitReader(all.Slice(0, 3).Bytes(), 3), bare())
+			if err != nil {
+				panic(err)
+			}
+			return m
+		}, append(append(core.Bits{}, all.Slice(0, 3)...), all.Slice(0, total)...)})
+		srcs = append(srcs, eofSrc{"overlong section(bare,3,+5)", func() bitio.ReaderAtSeeker {
+			return bitio.NewSectionReader(bare(), 3, total+5)
+		}, all.Slice(3, total)})
+		for _, es := range srcs {
+			es := es
+			view := es.ref.Bytes()
+			nb := int64(len(es.ref))
+			idx++
+			if !r.Mine(idx) {
+				continue
+			}
+			args := map[string]any{"view": "IOReader", "bits": nb, "src": es.kind, "bytes": nbytes}
+			bfsBytes(r, "ioreader-eofsrc", args, func() *sysInst {
+				br := &budgetReader{r: es.mk(), budget: 10000}
+				v := bitio.NewIOReader(br)
+				pos := int64(0)
+				return &sysInst{obj: v, extra: func() any { return pos }, close: func() {},
+					step: func(op BOp, judge bool) *failure {
+						br.budget = 10000
+						return stepByteView(v, nil, view, &pos, op, judge, nb%8 != 0)
+					}}
+			}, []BOp{{K: "read", N: 0}, {K: "read", N: 1}, {K: "read", N: 2}, {K: "read", N: 3}, {K: "read", N: 5}, {K: "readbyte"}}, core.Pick(r, 4, 5), 100000)
+			// whole copies
+			var out bytes.Buffer
+			var n int64
+			var err error
+			pv, _ := core.Protect(func() { n, err = bitiox.CopyBits(&out, &budgetReader{r: es.mk(), budget: 10000}) })
+			r.Eval(1)
+			if pv != nil || err != nil || n != int64(len(view)) || !bytes.Equal(out.Bytes(), view) {
+				r.Violate("copybits:eofsrc:"+es.kind, fmt.Sprintf("CopyBits(%s over %d source bytes, %d bits) wrote %x n=%d err=%v panic=%v, expected %x", es.kind, nbytes, nb, out.Bytes(), n, err, pv, view),
+					Case{Kind: "eofsrc", Args: args})
+			}
+			var all2 []byte
+			pv, _ = core.Protect(func() { all2, err = io.ReadAll(bitio.NewIOReader(es.mk())) })
+			r.Eval(1)
+			if pv != nil || err != nil || !bytes.Equal(all2, view) {
+				r.Violate("readall:eofsrc:"+es.kind, fmt.Sprintf("io.ReadAll(NewIOReader(%s over %d source bytes, %d bits)) = %x err=%v panic=%v, expected %x", es.kind, nbytes, nb, all2, err, pv, view),
+					Case{Kind: "eofsrc", Args: args})
+			}
+		}
+	}
+}
